@@ -343,9 +343,17 @@ func c10(r *Report) {
 				}
 				// the escape: a receive on a channel that is closed when the relay's relayFrames returns
 				escape := false
-				for _, alt := range sel.States {
+				escapes := true
+				for ak, alt := range sel.States {
 					if alt.Dir != types.RecvOnly {
 						continue
+					}
+					// taking the escape ends the emission: the arm does not lead back to the select
+					// (a `break` that only leaves the select lets the loop spin on the same frame)
+					if arm := selectArm(sel, ak); arm != nil {
+						if p := G(emit).PathTo(blockStart(arm), true, nil, func(i ssa.Instruction) bool { return i == ssa.Instruction(sel) }); p != nil {
+							escapes = false
+						}
 					}
 					// the channel is a field (of the buffer or the relay) that relayFrames closes on exit
 					var fname string
@@ -369,6 +377,7 @@ func c10(r *Report) {
 					}
 				}
 				r.Sites++
+				r.Decide("path", "(*M/h2.outputBuffer).emitEligibleFrames: the arm taken when the relay has ended leaves the emission loop", escapes, "the select is not reachable again from the escape arm", "after the relay has ended the loop comes back to the same select with the same frame (the escape arm only leaves the select): the peer's reader spins for ever with flowMu held and the session never ends", sel.Pos())
 				r.Decide("lockset", "(*M/h2.outputBuffer).emitEligibleFrames: send on output while flowMu is held", escape, "the send sits in a select whose other arm is a channel relayFrames closes (deferred) when the relay ends", "the select around the send has no arm that fires when the relay has ended: the peer's reader still blocks with the lock held", sel.Pos())
 			}
 		}
